@@ -24,16 +24,16 @@ pub fn prop() -> Prop {
 fn spec() -> Spec {
     Spec {
         kinds: vec![
-            Kind { name: "value", quick: 80_000, thorough: 4_000_000, serial: false },
-            Kind { name: "delegation", quick: 40_000, thorough: 1_000_000, serial: false },
-            Kind { name: "axes", quick: 20_000, thorough: 500_000, serial: false },
+            Kind { name: "value", quick: 400_000, thorough: 10_000_000, serial: false },
+            Kind { name: "delegation", quick: 150_000, thorough: 3_000_000, serial: false },
+            Kind { name: "axes", quick: 100_000, thorough: 2_000_000, serial: false },
         ],
         rule: "value: non-degenerate robot x stack of depth 1..3 in any order from Tool/Base/Frame (uniform rotations and translations; axial tools/frames for the 5-DOF clauses) x q: forward == base*chain*tool in plain matrices, link poses (tool unchanged, base pre-multiplied, frame last), every answer of every inverse entry point lands on the request through the reference composition, continuation ordering and verbatim J6 hold at the outermost level. delegation: the same stacks over a SpyKinematics: for each of the 8 trait methods exactly one inner call of the same method, pose argument == analytically transformed request, scalar/previous arguments bit-identical, results passed through. axes: LinearAxis / Gantry forward == base*translation*inner forward. non-trivial = stack has a rotation != identity; distinct = hash(robot, stack, q, method)",
         assumptions: vec![
             "5-DOF variants are only judged on stacks whose tools/frames are axial (translation along and rotation about the flange z axis), as the statement presupposes",
             "forward/link tolerance 1e-11*(1+reach); inverse accuracy 1e-6 m / 1e-6 rad + 1e-9",
         ],
-        minimums: vec![("oracle_evals", 500_000, 20_000_000), ("delegation.matrix_cells", 100_000, 2_000_000), ("axes.checked", 10_000, 300_000)],
+        minimums: vec![("oracle_evals", 5_000_000, 120_000_000), ("delegation.matrix_cells", 1_000_000, 20_000_000), ("axes.checked", 300_000, 6_000_000)],
     }
 }
 
